@@ -16,6 +16,7 @@ import glob, hashlib, json, os, re, shutil, signal, subprocess
 from concurrent.futures import ThreadPoolExecutor
 import common
 from common import hexs
+import conf_common as cc
 
 TRANSLATORS = ['t_interp', 't_exec']
 TRUSTED = [
@@ -26,8 +27,10 @@ TRUSTED = [
     'quantified function from an argument vector to "execvp failed" or a wait status, and gotsig; glibc encodes wait statuses as '
     'bits/waitstatus.h says',
     'the configuration is abstracted as a view (variables as config_interpolate_lookup renders them, rendered defaults, step list, '
-    'hook list); how a configuration FILE becomes that view is C08\'s subject - here the harness builds the view next to every '
-    'file it writes (harness/c06.py cfg_view) and the correspondence checks the pair',
+    'hook list); Exec/SchedBridge.v proves that the runner on the PARSED configuration (C08/C10 model of the file) is this runner on '
+    'the view of the parsed configuration; the view the harness builds by hand next to every file (cfg_view) is compared on every '
+    'step case with what the parser model makes of the file (driver cf `resolve`, lane "view vs parsed configuration")',
+    'tools/argvdelay.c (LD_PRELOAD: setsid sleeps) stands for a child that is not scheduled within the second step_fork waits',
     'C09\'s model of interpolate.c (Interp/InterpDefs.v) is reused for every argument',
     'tools/argvprobe.c (probe), harness/c06_exitstatus.c; a stopped (SIGSTOP/SIGTSTP/...) step is not exercised (the runner waits for it)',
 ]
@@ -201,6 +204,14 @@ def gen_run_case(rng, probe):
         if bytes.fromhex(c['name']).decode() in ('nein', '', 'ENV', 'env ', 'en', 'envx'):
             continue
         return c
+    return c
+
+
+def gen_slow_case(rng):
+    """the forked child is held up before setsid(): step_fork's wait for the process group times out"""
+    pr = rng.choice([{'exit': 0}, {'exit': 0}, {'exit': 3}, {'exit': 255}, {'exit': rng.randint(1, 254)}])
+    c = gen_run_case(rng, pr)
+    c['slow_ms'] = 4000
     return c
 
 
@@ -400,6 +411,13 @@ class World:
         m = re.search(r'#define\s+MACHINE\s+"([^"]*)"', open(os.path.join(self.impl, 'config.h')).read())
         self.machine = m.group(1) if m else 'unknown'
         self.n = 0
+        self.delay_so = os.path.join(self.bin, 'argvdelay.so')
+        r = common.sh(['cc', '-shared', '-fPIC', '-O1', '-o', self.delay_so, os.path.join(common.VERIF, 'tools', 'argvdelay.c'), '-ldl'])
+        if r.returncode != 0:
+            raise common.BuildFailure('argvdelay: ' + r.stdout[-1500:])
+        # the parser model of C08/C10 (driver cf) and the facts about this machine it takes as inputs
+        self.cf = ctx.build_driver('cf', withz=True)
+        self.cw = cc.World(ctx, self.impl)
 
     def paths(self, i):
         d = os.path.join(self.work, 'c%d' % i)
@@ -428,6 +446,9 @@ class World:
             e['ARGVPROBE_SIGNAL'] = str(pr['signal'])
         if 'timeout' in pr:
             e['ARGVPROBE_SLEEP'] = '30'
+        if case.get('slow_ms'):
+            e['LD_PRELOAD'] = self.delay_so
+            e['ARGVDELAY_SETSID_MS'] = str(case['slow_ms'])
         return e
 
     def run(self, case, p):
@@ -479,6 +500,8 @@ def classify_stderr(err, prog):
             out.append('exited:' + re.match(r'^process group exited (-?\d+)$', msg).group(1))
         elif re.match(r'^(caught signal \d+, kill process group|sending term signal|sending kill signal)$', msg):
             continue
+        elif msg == 'process group failure':
+            out.append('groupfail')
         elif msg.startswith('missing variable separator in '):
             out.append('separator')
         elif re.match(r"^variable '.*' cannot be defined$", msg, re.S):
@@ -528,6 +551,41 @@ def kernel_for(case, target):
     return 'e%d' % c, 'w%d' % (c * 256), 0
 
 
+def propose(res, pid, f):
+    """an oracle failure of a defect class that was reported but may not be in known_findings.json yet: it counts as
+    an oracle failure once the entry exists, until then it is recorded in the evidence only"""
+    if common.match_known(pid, f['signature']):
+        res.oracle_failures.append(f)
+    else:
+        res.extra.setdefault('proposed_findings', {}).setdefault(f['signature'], f['what'])
+        res.count('proposed finding, not in known_findings.json yet: ' + f['signature'])
+
+
+def check_view(w, cases, prepared, a1, res):
+    """the view the harness builds by hand (cfg_view) against what the parser model of C08/C10 makes of the same file:
+    `resolve` of driver cf on the configuration text must give the vector `expect` of driver av gives on the view"""
+    qs, envcases, idx = [], [], []
+    for i, (c, (p, toks, lexable)) in enumerate(zip(cases, prepared)):
+        if c['kind'] != 'step' or not lexable:
+            continue
+        text = open(p['conf'], 'rb').read()
+        x = c.get('execdir')
+        envcases.append({'execdir': None if x is None else subst(x, p).encode().hex()})
+        qs.append((len(envcases) - 1, ['resolve', c['conf']['mode'], hexs(text), str(c['trace']), c['name'] or '-']))
+        idx.append(i)
+    if not qs:
+        return
+    answers, _ = cc.driver_rounds(w.cw, w.cf, qs, envcases, lambda pre, env: ' '.join(pre + env))
+    for i, a in zip(idx, answers):
+        view = a1[i]
+        want = 'none' if view == 'E' else 'cmd' + view[1:]
+        res.count('view vs parsed configuration: ' + ('agree' if a == want else 'DIFFER'))
+        res.extra['view_checked'] = res.extra.get('view_checked', 0) + 1
+        if a != want:
+            res.disagreements.append({'case': cases[i], 'what': 'the hand-built configuration view and the parsed configuration file resolve differently',
+                                      'model': 'view: ' + view[:200], 'impl': 'parsed text (model of C08/C10): ' + a[:200]})
+
+
 def evaluate(ctx, cases, res, world=None):
     w = world or World(ctx)
     cases = [c for c in cases if case_ok(c)]
@@ -542,6 +600,7 @@ def evaluate(ctx, cases, res, world=None):
         else:
             q1.append(' '.join(['xhook', str(len(c['vs']))] + [v or '-' for v in c['vs']] + toks))
     a1 = common.run_driver(w.drv, q1)
+    check_view(w, cases, prepared, a1, res)
     q2, meta = [], []
     for c, (p, toks, _), a, (rc, out, err, dump) in zip(cases, prepared, a1, obs):
         t = a.split()
@@ -552,7 +611,11 @@ def evaluate(ctx, cases, res, world=None):
         kx, kern, gotsig = kernel_for(c, target)
         meta.append((exp_argv, target, kx))
         if c['kind'] == 'step':
-            q2.append(' '.join(['run', 'c', str(c['trace']), c['name'] or '-', kern, str(gotsig)] + toks))
+            if c.get('slow_ms'):
+                # the child reaches setsid() only after the parent has given up on the handshake
+                q2.append(' '.join(['runfork', 'c', str(c['trace']), c['name'] or '-', kern, str(gotsig), 'late'] + toks))
+            else:
+                q2.append(' '.join(['run', 'c', str(c['trace']), c['name'] or '-', kern, str(gotsig)] + toks))
             q2.append(' '.join(['okstep', str(c['trace']), c['name'] or '-', kx] + obs_tokens(dump, rc, err) + toks))
         else:
             q2.append(' '.join(['hook', str(len(c['vs']))] + [v or '-' for v in c['vs']] + ['1' if target == 'probe' else '0'] + toks))
@@ -600,10 +663,19 @@ def evaluate(ctx, cases, res, world=None):
             res.nontrivial.add(hashlib.sha1(json.dumps(c, sort_keys=True).encode()).hexdigest())
         if model != impl_s:
             res.disagreements.append({'case': c, 'model': model, 'impl': impl_s, 'stderr': err[-300:].decode('latin1')})
+        if c.get('slow_ms'):
+            res.count('step: fork handshake timed out (setsid delayed %d ms) kx=%s' % (c['slow_ms'], kx[0]))
+            res.extra['handshake_cases'] = res.extra.get('handshake_cases', 0) + 1
         if ok != '1':
             sig, what = classify_failure(c, rc, dump, err, exp_argv, kx, a1[i])
-            res.oracle_failures.append({'case': c, 'signature': sig, 'what': what, 'impl': impl_s,
-                                        'expected': a1[i], 'stderr': err[-300:].decode('latin1')})
+            f = {'case': c, 'signature': sig, 'what': what, 'impl': impl_s, 'expected': a1[i], 'stderr': err[-300:].decode('latin1')}
+            if c.get('slow_ms') and sig == 'exit-status-not-faithful' and kx == 'e0' and rc == 1 and 'groupfail' in classes:
+                f['signature'] = 'handshake-timeout-masks-exit-zero'
+                f['what'] = ('the command ran and exited 0, robsd-exec printed "process group failure" and exited 1 '
+                             '(step_fork gave up waiting for setsid() in the child after one second)')
+                propose(res, 'C06', f)
+            else:
+                res.oracle_failures.append(f)
         elif c['kind'] == 'hook' and dump is not None and exp_argv is not None:
             # the probe replaced robsd-hook: its status must be the requested one
             pr = c['probe']
@@ -697,7 +769,10 @@ def run(ctx, n=None, exits_all=None):
                 'PATH, ${canvas-dir}/argvprobe, missing, not executable, rendering empty; duplicate and shadowing step names; unknown '
                 'names) and the four script modes (every static step, regress entries incl. names colliding with static steps, EXECDIR '
                 'with spaces, globs, =, nested ${robsddir}, failing), trace on/off; the command exits with a code in 0..255, dies from '
-                'every signal but the stopping ones, or outlives regress-timeout.  robsd-hook: all five modes, hook unset / empty / 1-6 '
+                'every signal but the stopping ones, or outlives regress-timeout; a few runs with the forked child held up before setsid() '
+                '(LD_PRELOAD, tools/argvdelay.c) so that the fork handshake of step_fork times out (model run_fork/HsLate); every step case '
+                'also resolved by the parser model of C08/C10 on the configuration FILE and compared with the hand-built view.  '
+                'robsd-hook: all five modes, hook unset / empty / 1-6 '
                 'elements, -v variables (empty, spaces, =, nested, failing, missing separator, reserved, shadowing defaults).  '
                 'non-trivial = the command of the case contains a reference, a blank or a glob character (script modes: always); '
                 'distinct by content hash')
@@ -717,6 +792,8 @@ def run(ctx, n=None, exits_all=None):
         cases.append(gen_step_case(rng))
     for _ in range(ctx.budget(2, 6)):
         cases.append(gen_timeout_case(rng))
+    for _ in range(ctx.budget(5, 16)):
+        cases.append(gen_slow_case(rng))
     for _ in range(max(60, n // 2)):
         cases.append(gen_hook_case(rng))
     res.samples = [c for c in cases if c['kind'] == 'step'][1:3] + [c for c in cases if c['kind'] == 'hook'][:1]
